@@ -50,7 +50,7 @@ P = {
     "C15": dict(n=(20000, 200000), profiles=(["dev"], ["dev"]), feature_runs=(["num-traits"], ["num-traits"])),
     "C16": dict(n=(40000, 1000000), profiles=(["dev"], ["dev", "release"])),
     "C17": dict(n=(20000, 300000), profiles=(["dev"], ["dev"])),
-    "C18": dict(n=(400, 5000), profiles=(["dev"], ["dev"])),
+    "C18": dict(n=(600, 6000), profiles=(["dev"], ["dev"])),
     "C19": dict(n=(2000, 50000), profiles=(["dev"], ["dev", "release"])),
     "C20": dict(n=(30000, 300000), profiles=(["dev", "release"],
                                              ["dev", "release", "oc1da0o0", "oc0da1o0", "oc1da0o3", "oc0da1o3", "oc1da1o3", "oc0da0o0"]),
@@ -255,6 +255,11 @@ open Lean Elab Command in
                 return True
             if alt == "panic:any" and out.startswith("panic"):
                 return True
+            if " " in alt and "*" in alt:
+                # field-wise wildcard ("0 *": first field fixed, second unconstrained)
+                fa, fo = alt.split(" "), out.split(" ")
+                if len(fa) == len(fo) and all(x == "*" or x == y for x, y in zip(fa, fo)):
+                    return True
         return False
 
     def run_pair(self, exe, model_prof, lines, tag):
@@ -430,8 +435,42 @@ def c18_literals(g, n):
             "440282366920938463463374607431768211456", "3402823669209384634633746074317682114567", "0.0e40", "000E+40",
             "0.0000000000000000000000000000000000000001e22", "1e0", "1.e5" if False else "1.0e5", "12345678.12345678", "1234567812345678"]
     lits = [l for l in lits if l]
+    # zeros in every spelling (scale of a zero literal must survive: 0.00 has two fractional digits)
+    lits += ["0.0", "0.00", "-0.0", "+0.000", "0.000e1", "0.00e-3", "0e-5", "0e5", "0.000000000000000000", "0.0000000000000000000",
+             "00.0e0", "-0e-18", "0e-19", "0.0e-17", "0.0e-18", "000", "0.0E+2", "0.00E2", "0.000e3", "0.000e4"]
+    # coefficient·10^e around the i128 limit and around the limits of the narrower integers a fast path may cast through
+    MAXI = 2 ** 127 - 1
+    for e in range(1, 39):
+        for c in {MAXI // 10 ** e, MAXI // 10 ** e + 1}:
+            lits.append(f"{c}e{e}")
+    for e in (18, 19, 20, 28, 29, 9, 10):
+        for c in (2 ** 64 - 1, 2 ** 64, 2 ** 63, 2 ** 63 - 1, 2 ** 32 - 1, 2 ** 32, 18000000000000000000, 17014118346046923174,
+                  17014118346046923173):
+            lits.append(f"{c}e{e}")
+            lits.append(f"-{c}e{e}")
+            sc = str(c)
+            j = r.randrange(1, len(sc))
+            lits.append(f"{sc[:-j]}.{sc[-j:]}e{e + j}")
+    if len(lits) > n:
+        head = lits[:40]
+        rest = lits[40:]
+        r.shuffle(rest)
+        lits = head + rest[: max(0, n - 40)]
     while len(lits) < n:
         sign = r.choice(["", "", "-", "+"])
+        if r.random() < 0.08:    # a zero with random fraction digits and exponent
+            e = r.randrange(-30, 45)
+            lits.append(sign + "0" * r.randrange(1, 3) + ("." + "0" * r.randrange(0, 22) if r.random() < 0.8 else "") +
+                        (f"e{e}" if r.random() < 0.6 else ""))
+            if lits[-1].endswith(".") : lits[-1] += "0"
+            continue
+        if r.random() < 0.1:     # coefficient near MAX / 10^e, or a u64-sized coefficient with a two-digit exponent
+            e = r.randrange(1, 39)
+            c = r.choice([MAXI // 10 ** e + r.randrange(-2, 3), r.randrange(2 ** 63, 2 ** 64), r.randrange(MAXI // 10 ** e, 10 * MAXI // 10 ** e + 2)])
+            sc = str(max(1, c))
+            j = r.randrange(0, len(sc))
+            lits.append(sign + (sc if j == 0 else f"{sc[:-j]}.{sc[-j:]}") + f"e{e + j}")
+            continue
         ip = g.digits(r.randrange(1, 41)) if r.random() < 0.85 else str(r.choice([2 ** 127, 2 ** 127 - 1, 10 ** 38, 2 ** 128]) + r.randrange(-2, 3))
         if r.random() < 0.3:
             ip = ip.lstrip("0") or "0"
